@@ -21,7 +21,7 @@ RULE = ("A case is one scenario under test (plain or outline row) whose step-out
         "outcome not in last position, or background depth >= 1.")
 ASSUMPTIONS = [
     "dry-run status of steps that have a definition is only required to be of untested class",
-    "continue_after_failed_step is exercised with outcomes pass/fail/raise/convert (its documented use)",
+    "continue_after_failed_step is exercised with outcomes pass/fail/raise/convert and with steps that skip their scenario",
     "repeated runs exclude the skip outcome: scenario.skip() marks the scenario as excluded for later runs by design",
 ]
 SIMPLIFY = {"o": lambda v: "pass" if v in OUTCOMES else None}
@@ -58,6 +58,8 @@ def build(case):
             s["a"] = 2 if i % 2 else True       # both documented decorator styles (with / without timeout=)
         if o == "act":
             s["acts"] = case["acts"][str(i)]
+        if o == "pass" and case.get("returns") and not s.get("a"):
+            s["emit"] = {"ret": ("False", "0", "True", "text", "empty")[(i + len(outs)) % 5]}
         return s
 
     fbg = [mk(i, k == 0) for k, i in enumerate(parts[0])]
@@ -136,6 +138,8 @@ def check(case):
         for f in ("wip", "dry", "async", "cont", "bg_placeholders"):
             if case.get(f):
                 res.label(f)
+        if case.get("returns") and "pass" in outs and not case.get("dry"):
+            res.label("step-function-returns-a-value")
         if case.get("hookfault") and outs and not case.get("dry"):
             hook, i, _exc = case["hookfault"]
             i = int(i) % len(outs)
@@ -217,6 +221,8 @@ def random_seq(draw, max_len=12):
             "bg_placeholders": draw(st.booleans())}
     # some conversion errors come from converters that raise KeyError instead of ValueError
     case["outs"] = [("convert_key" if (o == "convert" and draw(st.booleans())) else o) for o in case["outs"]]
+    if draw(st.integers(0, 2)) == 0:
+        case["returns"] = True      # passing step functions return a value (False, 0, True, text)
     if draw(st.integers(0, 3)) == 0:
         case["hookfault"] = [draw(st.sampled_from(["before_step", "after_step"])), draw(st.integers(0, n - 1)),
                              draw(st.sampled_from(["Exception", "AssertionError", "Exception0"]))]
@@ -226,7 +232,7 @@ def random_seq(draw, max_len=12):
 @st.composite
 def cont_seq(draw):
     n = draw(st.integers(1, 8))
-    outs = [draw(st.sampled_from(["pass", "pass", "fail", "raise", "convert"])) for _ in range(n)]
+    outs = [draw(st.sampled_from(["pass", "pass", "fail", "raise", "convert", "skip"])) for _ in range(n)]
     return {"kind": "seq", "outs": outs, "depth": draw(st.integers(0, 2)),
             "cut1": draw(st.integers(0, n)), "cut2": draw(st.integers(0, n)),
             "as_row": draw(st.booleans()), "cont": True, "async": draw(st.booleans())}
@@ -263,7 +269,8 @@ def explore(rec):
 def required_labels(tier):
     req = ["depth:0", "depth:1", "depth:2", "row", "plain", "wip", "dry", "async", "cont", "rerun", "program",
            "bg_placeholders", "first:convert_key", "one-text-several-step-types", "step-hook-raises:before_step",
-           "step-hook-raises:after_step", "step-hook-raises:passing-step-with-followers"]
+           "step-hook-raises:after_step", "step-hook-raises:passing-step-with-followers",
+           "step-function-returns-a-value"]
     for o in OUTCOMES:
         req += ["first:" + o, "middle:" + o, "last:" + o]
     return req
@@ -274,3 +281,4 @@ KNOWN_PREDICATES = {}
 
 RULE = RULE + " " + ('Programs also contain step texts that are bound per step type (one text: passing @given, failing @then, no @when definition) and converters raising KeyError.')
 RULE = RULE + " " + ('A quarter of the random sequences let the before_step or after_step hook of one step raise (that step does not pass either: nothing after it is called).')
+RULE = RULE + " " + ('A third of the random sequences let passing step functions return a value (False, 0, True, text): what a step function returns is no outcome. Sequences under continue_after_failed_step also contain steps that skip their scenario.')
